@@ -707,7 +707,28 @@ fn api_run(kind: &str, ops: &[String]) -> String {
             }
         };
     }
-    let leak = |h: &str| -> &'static [u8] { Box::leak(unhex(h).into_boxed_slice()) };
+    // `@<hex>`: the program is placed at the start of one buffer shared by the whole history, so that successive programs
+    // begin at the same address (allowed only while the new bytes agree with what the buffer already holds on their common
+    // prefix: slices handed out earlier are never modified; otherwise a fresh allocation is used, as without `@`)
+    let shared: *mut u8 = Box::leak(vec![0u8; 4096].into_boxed_slice()).as_mut_ptr();
+    let shared_len = std::cell::Cell::new(0usize);
+    let leak = |h: &str| -> &'static [u8] {
+        if let Some(hx) = h.strip_prefix('@') {
+            let b = unhex(hx);
+            let have = shared_len.get();
+            let common = have.min(b.len());
+            let old = unsafe { std::slice::from_raw_parts(shared as *const u8, common) };
+            if b.len() <= 4096 && old == &b[..common] {
+                if b.len() > have {
+                    unsafe { std::ptr::copy_nonoverlapping(b[have..].as_ptr(), shared.add(have), b.len() - have) };
+                    shared_len.set(b.len());
+                }
+                return unsafe { std::slice::from_raw_parts(shared as *const u8, b.len()) };
+            }
+            return Box::leak(b.into_boxed_slice());
+        }
+        Box::leak(unhex(h).into_boxed_slice())
+    };
     let vf = |s: &str| -> rbpf::Verifier {
         match s {
             "accept" => vf_accept_all,
